@@ -39,8 +39,9 @@ type c40Req struct {
 	Comp   string `json:"comp,omitempty"`   // component name for tick/component/field
 	Field  string `json:"field,omitempty"`  // dotted field path for field
 	Query  string `json:"query,omitempty"`  // raw query string (buffers, field paging)
-	GapUS  int    `json:"gap_us"`           // sleep before the request (perturbation plan)
-	Yields int    `json:"yields,omitempty"` // runtime.Gosched() calls before the request
+	GapUS  int    `json:"gap_us"`            // sleep before the request (perturbation plan)
+	SpinUS int    `json:"spin_us,omitempty"` // busy-wait before the request, after the sleep (finer than the sleep granularity)
+	Yields int    `json:"yields,omitempty"`  // runtime.Gosched() calls before the request
 }
 
 type c40Case struct {
@@ -54,7 +55,26 @@ type c40Case struct {
 	Procs      int      `json:"gomaxprocs"`
 	Spin       int      `json:"spinners,omitempty"` // busy goroutines competing for the Ps during the monitored run (perturbation plan)
 	Reqs       []c40Req `json:"reqs"`
+
+	// Concurrent clients (sub-check overlap). When Clients is not empty, Reqs is
+	// not used: client i issues Clients[i] in order on a connection of its own,
+	// all clients run concurrently, and after all of them have finished the
+	// harness issues one unconditional /api/continue.
+	Clients [][]c40Req `json:"clients,omitempty"`
+	// SlowEvery > 0 adds the harness component "Slow": the engine hook injects
+	// one event for it at every SlowEvery-th dispatched event (same simulated
+	// time), and the handler of the k-th such event busy-works for
+	// SlowDurUS[k mod len] microseconds of wall time in the monitored run (not at
+	// all in the unmonitored one: wall time is not part of the fingerprint).
+	SlowEvery int   `json:"slow_every,omitempty"`
+	SlowDurUS []int `json:"slow_dur_us,omitempty"`
+	// Probe: run the monitored leg with the harness' own Monitor over the
+	// Pause/Continue-observing engine wrapper (explicit instrumentation) instead
+	// of the builder's monitor (race detector undisturbed).
+	Probe bool `json:"probe,omitempty"`
 }
+
+const c40SlowName = "Slow"
 
 // c40Components are the names registered with the monitor by the assembly.
 var c40Components = []string{"MemAccessAgent", "Cache", "DRAM"}
@@ -66,6 +86,7 @@ var c40Fields = map[string][]string{
 	"MemAccessAgent": {"State", "State.WriteLeft", "State.PendingReadReq", "State.KnownMemValue", "Component", "LowModule"},
 	"Cache":          {"State", "State.Transactions", "State.DirectoryState", "State.MSHRState", "State.EvictingList", "State.DirStageBuf"},
 	"DRAM":           {"State", "State.ControlState", "TickingComponent"},
+	c40SlowName:      {"State", "State", "State.Busy", "State.Spins", "Busy", "State.Handled", "Plan"},
 }
 
 // c40Handler maps a request kind to the name of the Monitor method serving it
@@ -134,6 +155,13 @@ type c40Served struct {
 	Paused bool   `json:"paused"` // the client had the engine paused (its own pause, not yet continued)
 	Err    string `json:"err,omitempty"`
 	Body   string `json:"body,omitempty"` // truncated
+	Client int    `json:"client"`         // which concurrent client issued it (-1: the harness' final continue)
+	Comp   string `json:"comp,omitempty"`
+	// SawBusy: the answer to a component/field inspection of the harness
+	// component Slow shows its Busy marker set. The marker is 1 only between the
+	// entry and the exit of Slow's event handler, so such an answer was read
+	// while that handler was running.
+	SawBusy bool `json:"saw_busy,omitempty"`
 }
 
 type c40Outcome struct {
@@ -149,6 +177,7 @@ type c40Outcome struct {
 	Writes    int    `json:"writes"`     // write-done responses delivered
 	Pending   int    `json:"pending"`    // requests without a response at the end
 	Left      int    `json:"left"`       // accesses never issued
+	Slow      int    `json:"slow"`       // events handled by the harness component Slow (0 without it)
 }
 
 type c40Result struct {
@@ -165,6 +194,23 @@ type c40Result struct {
 	MonMS      int64        `json:"mon_ms"`
 	ClientMS   int64        `json:"client_ms"`
 	HTTPPanic  []string     `json:"http_panics,omitempty"`
+
+	// The harness component Slow (monitored leg): wall-clock [start, end] of
+	// every handler execution that busy-worked, and the explicit witnesses.
+	SlowSpans [][2]int64 `json:"slow_spans,omitempty"`
+	// TickWhileBusy: Monitor.tick called Slow.TickLater() while Slow's handler
+	// was running (TickLater found the Busy marker set).
+	TickWhileBusy int `json:"tick_while_busy,omitempty"`
+	SlowTicks     int `json:"slow_ticks,omitempty"` // TickLater calls on Slow in all
+	// probe mode: what the engine wrapper saw
+	NowCalls        int `json:"now_calls,omitempty"`         // CurrentTime() calls by Monitor.now
+	NowDuringEvent  int `json:"now_during_event,omitempty"`  // … made while an event was being handled
+	PauseCalls      int `json:"pause_calls,omitempty"`       // Pause() calls by Monitor.pauseEngine
+	PauseMidEvent   int `json:"pause_mid_event,omitempty"`   // … that arrived while an event was being handled
+	PauseMidSlow    int `json:"pause_mid_slow,omitempty"`    // … while Slow's handler was busy-working
+	InspectMidSlow  int `json:"inspect_mid_slow,omitempty"`  // Pause() calls by inspection handlers that arrived while Slow's handler was busy-working
+	PauseWaitMaxUS  int `json:"pause_wait_max_us,omitempty"` // longest Pause() call (perturbation statistics only)
+	TickBusyAtomic  int `json:"tick_busy_atomic,omitempty"`  // probe mode: TickLater saw the (synchronising) busy flag set
 }
 
 // ---- the assembly --------------------------------------------------------------
@@ -176,6 +222,7 @@ type c40Sim struct {
 	cache  *writeback.Comp
 	dram   *idealmemcontroller.Comp
 	rec    *c40Recorder
+	slow   *c40Slow
 	port   int
 
 	probe      *c40Probe
@@ -194,7 +241,9 @@ type c40Sim struct {
 // goroutine and read only after Run returned.
 type c40Recorder struct {
 	events  uint64
+	all     uint64 // every dispatched event, the monitor's pokes of Slow included (probe phases only)
 	evHash  uint64
+	slow    *c40Slow // nil without the harness component
 	engine  timing.Engine
 	probe   *c40Probe // probe mode only: publishes the engine phase (this *does* synchronise; probe mode does not rely on the race detector)
 	rspHash uint64
@@ -241,20 +290,149 @@ func mix(h uint64, b []byte) uint64 {
 func (r *c40Recorder) Func(ctx hooking.HookCtx) {
 	if ctx.Pos != timing.HookPosBeforeEvent {
 		if r.probe != nil && ctx.Pos == timing.HookPosAfterEvent {
-			r.probe.phase.Store(2 * r.events)
+			r.probe.phase.Store(2 * r.all)
 		}
 		return
 	}
 	if r.probe != nil {
-		r.probe.phase.Store(2*r.events + 1)
+		r.probe.phase.Store(2*r.all + 1)
 	}
+	r.all++
 	evt := ctx.Item.(timing.Event)
+	if _, poke := evt.(c40PokeEvent); poke {
+		// injected by a /api/tick/Slow request: does nothing, changes the order
+		// of nothing else (same-time events are FIFO) and is not part of the
+		// fingerprint
+		return
+	}
 	var b [8]byte
 	binary.LittleEndian.PutUint64(b[:], uint64(evt.Time()))
 	r.evHash = mix(r.evHash, b[:])
 	r.evHash = mix(r.evHash, []byte(evt.HandlerID()))
 	r.evHash = mix(r.evHash, []byte{0})
 	r.events++
+	if r.slow != nil && r.events%uint64(r.slow.every) == 0 {
+		// every k-th dispatched event is followed by one event of Slow at the
+		// same simulated time (both legs: the position depends on the event
+		// count only)
+		r.slow.idSeq++
+		r.engine.Schedule(c40SlowEvent{timing.EventBase{ID: 1<<62 + r.slow.idSeq, Time_: evt.Time(), HandlerID_: c40SlowName}})
+	}
+}
+
+// ---- the harness component Slow -------------------------------------------------------------
+
+// c40Slow is a component of the harness' own: its event handler takes a drawn
+// amount of wall time (so that a /api/pause regularly arrives while a handler
+// is running and has to wait, and other requests arrive while it waits), it
+// writes its own state all the time while it runs, and it carries an explicit
+// marker of "my handler is running" that is part of the state the monitor
+// inspects:
+//
+//   - /api/component/Slow and /api/field/{Slow,State|Busy|State.Busy} answer
+//     with the marker's value: an answer showing 1 was read mid-handler;
+//   - /api/tick/Slow makes the monitor call TickLater() below, which looks at
+//     the marker the way a real component's TickLater looks at its scheduler
+//     state.
+//
+// All of this is plain, unsynchronised state exactly like a library
+// component's: under the property the monitor touches it only while the engine
+// is held between events. (In the monitored leg without the probe nothing here
+// synchronises the engine goroutine with an HTTP goroutine, so the race
+// detector still sees every unordered pair of accesses.)
+type c40Slow struct {
+	name  string
+	Busy  int // 1 while the handler body runs
+	State c40SlowState
+	Plan  c40SlowPlan
+
+	engine timing.Engine
+	every  int
+	noSpin bool   // unmonitored leg
+	idSeq  uint64 // event IDs for the injected events (engine goroutine)
+	w      *c40SlowWitness
+	probe  *c40Probe // probe mode only
+}
+
+type c40SlowState struct {
+	Busy    int    // as c40Slow.Busy (reached through /api/field …State)
+	Spins   uint64 // bumped continuously by the handler body
+	Handled int
+	Pokes   int // events injected by /api/tick/Slow and handled
+	Ticks   int // TickLater calls (made by the monitor while it holds the engine)
+}
+
+type c40SlowPlan struct {
+	DurUS []int
+	Next  int
+}
+
+// c40SlowWitness is reached through a pointer so that a depth-1 inspection of
+// the component never walks into it.
+type c40SlowWitness struct {
+	spans         [][2]int64   // engine goroutine only; read after Run returned
+	tickWhileBusy atomic.Int64 // HTTP goroutines (only bumped on a violation)
+	ticks         atomic.Int64
+	tickBusyAtom  atomic.Int64
+	pokeSeq       atomic.Uint64
+}
+
+type c40SlowEvent struct{ timing.EventBase }
+type c40PokeEvent struct{ timing.EventBase }
+
+func (c *c40Slow) Name() string { return c.name }
+
+// Handle runs on the engine goroutine.
+func (c *c40Slow) Handle(e timing.Event) error {
+	if _, poke := e.(c40PokeEvent); poke {
+		c.State.Pokes++
+		return nil
+	}
+	dur := time.Duration(0)
+	if !c.noSpin && len(c.Plan.DurUS) > 0 {
+		dur = time.Duration(c.Plan.DurUS[c.Plan.Next%len(c.Plan.DurUS)]) * time.Microsecond
+	}
+	c.Plan.Next++
+	if dur == 0 {
+		c.State.Handled++
+		return nil
+	}
+	start := time.Now()
+	c.Busy = 1
+	c.State.Busy = 1
+	if c.probe != nil {
+		c.probe.slowBusy.Store(1)
+	}
+	for n := 0; ; n++ {
+		c.State.Spins++
+		if n%16 == 0 && time.Since(start) >= dur {
+			break
+		}
+	}
+	c.State.Handled++
+	if c.probe != nil {
+		c.probe.slowBusy.Store(0)
+	}
+	c.State.Busy = 0
+	c.Busy = 0
+	c.w.spans = append(c.w.spans, [2]int64{start.UnixNano(), time.Now().UnixNano()})
+	return nil
+}
+
+// TickLater is what Monitor.tick calls (on an HTTP goroutine) inside its
+// pause bracket. Like modeling.TickScheduler.TickLater it reads the
+// component's own state and schedules an event on the engine's queue.
+func (c *c40Slow) TickLater() {
+	if c.Busy != 0 {
+		c.w.tickWhileBusy.Add(1)
+	}
+	if c.probe != nil && c.probe.slowBusy.Load() != 0 {
+		c.w.tickBusyAtom.Add(1)
+	}
+	c.w.ticks.Add(1)
+	c.State.Ticks++
+	id := 1<<63 + c.w.pokeSeq.Add(1)
+	c.engine.Schedule(c40PokeEvent{timing.EventBase{ID: id, Time_: c.engine.CurrentTime(), HandlerID_: c40SlowName}})
 }
 
 var portRe = regexp.MustCompile(`http://localhost:(\d+)`)
@@ -294,9 +472,14 @@ type c40Section struct {
 
 type c40Probe struct {
 	phase    atomic.Uint64
+	slowBusy atomic.Int32 // Slow's handler is busy-working
 	mu       sync.Mutex
 	cur      *c40Section
 	sections []c40Section
+
+	nowCalls, nowDuringEvent                                int
+	pauseCalls, pauseMidEvent, pauseMidSlow, inspectMidSlow int
+	pauseWaitMaxUS                                          int
 }
 
 // c40ProbeEngine wraps the real engine for the monitor only; the components
@@ -328,12 +511,43 @@ func c40CallingHandler() string {
 }
 
 func (e *c40ProbeEngine) Pause() {
+	p0, busy0 := e.p.phase.Load(), e.p.slowBusy.Load()
+	t0 := time.Now()
 	e.Engine.Pause()
+	wait := int(time.Since(t0).Microseconds())
 	s1 := e.p.phase.Load()
 	h := c40CallingHandler()
 	e.p.mu.Lock()
 	e.p.cur = &c40Section{Handler: h, S1: s1}
+	if h == "pauseEngine" {
+		e.p.pauseCalls++
+		if p0%2 == 1 {
+			e.p.pauseMidEvent++
+		}
+		if busy0 != 0 {
+			e.p.pauseMidSlow++
+		}
+	} else if busy0 != 0 {
+		e.p.inspectMidSlow++
+	}
+	if wait > e.p.pauseWaitMaxUS {
+		e.p.pauseWaitMaxUS = wait
+	}
 	e.p.mu.Unlock()
+}
+
+// CurrentTime is only called by Monitor.now (the components use the real
+// engine): the engine's clock is written by the run loop at the start of every
+// event, so the read belongs between events.
+func (e *c40ProbeEngine) CurrentTime() timing.VTimeInPicoSec {
+	ph := e.p.phase.Load()
+	e.p.mu.Lock()
+	e.p.nowCalls++
+	if ph%2 == 1 {
+		e.p.nowDuringEvent++
+	}
+	e.p.mu.Unlock()
+	return e.Engine.CurrentTime()
 }
 
 func (e *c40ProbeEngine) Continue() {
@@ -432,6 +646,14 @@ func c40Build(c c40Case, mode string, dir string) (*c40Sim, error) {
 	conn.PlugIn(out.cache.GetPortByName("Top"))
 	conn.PlugIn(out.dram.GetPortByName("Top"))
 
+	if c.SlowEvery > 0 {
+		out.slow = &c40Slow{name: c40SlowName, engine: out.engine, every: c.SlowEvery, noSpin: mode == "base",
+			Plan: c40SlowPlan{DurUS: append([]int(nil), c.SlowDurUS...)}, w: &c40SlowWitness{}}
+		out.engine.(timing.HandlerRegistrar).RegisterHandler(c40SlowName, out.slow)
+		s.RegisterComponent(out.slow) // with the monitor on, this is what makes it inspectable
+		out.rec.slow = out.slow
+	}
+
 	if mode == "probe" {
 		// Own monitor over a wrapper of the same engine: the wrapper notes what
 		// the engine was doing when Pause() returned / Continue() was called.
@@ -442,6 +664,10 @@ func c40Build(c c40Case, mode string, dir string) (*c40Sim, error) {
 		mon.RegisterComponent(out.agent)
 		mon.RegisterComponent(out.dram)
 		mon.RegisterComponent(out.cache)
+		if out.slow != nil {
+			out.slow.probe = out.probe
+			mon.RegisterComponent(out.slow)
+		}
 		out.agent.CreateProgressBars(mon.CreateProgressBar)
 		port, err := c40CapturePort(mon.StartServer)
 		if err != nil {
@@ -475,6 +701,9 @@ func (s *c40Sim) outcome(c c40Case, finished bool, pan string) c40Outcome {
 	st := &s.agent.State
 	o.Pending = len(st.PendingReadReq) + len(st.PendingWriteReq)
 	o.Left = st.ReadLeft + st.WriteLeft
+	if s.slow != nil {
+		o.Slow = s.slow.State.Handled
+	}
 
 	addrs := make([]uint64, 0, len(st.KnownMemValue))
 	for a := range st.KnownMemValue {
@@ -566,9 +795,73 @@ func (s *c40Sim) runLeg(c c40Case, announce func(), afterRun func() bool) (o c40
 
 // ---- the client (runs in the parent process) -----------------------------------------------
 
-// c40Client issues the requests against the announced port. stop is closed when
-// the child has gone away.
-func c40Client(port int, reqs []c40Req, stop <-chan struct{}) []c40Served {
+// c40RunClients runs the request plan of a case against the announced port:
+// one client for a sequential case; for a case with concurrent clients one
+// goroutine and one connection per client, and — once all of them have
+// finished, whatever they left behind — one unconditional /api/continue, so
+// that the simulation is always left running. No request of the API waits for
+// another request (pause of a paused engine and continue of a running one
+// answer at once with the state; an inspection of a paused engine does not
+// pause again; Pause() itself waits only for the event handler in progress), so
+// every plan terminates under every interleaving.
+func c40RunClients(port int, c c40Case, stop <-chan struct{}) []c40Served {
+	if len(c.Clients) == 0 {
+		return c40Client(port, 0, c.Reqs, stop)
+	}
+	res := make([][]c40Served, len(c.Clients))
+	var wg sync.WaitGroup
+	for i := range c.Clients {
+		wg.Add(1)
+		go func(i int) {
+			defer wg.Done()
+			res[i] = c40Client(port, i, c.Clients[i], stop)
+		}(i)
+	}
+	wg.Wait()
+	var served []c40Served
+	for _, r := range res {
+		served = append(served, r...)
+	}
+	return append(served, c40Client(port, -1, []c40Req{{Kind: "continue"}}, stop)...)
+}
+
+// c40BodyShowsBusy: does the answer to an inspection of Slow show its Busy
+// marker set? (goseth: {"r":"0","dict":{"0":{"k":..,"t":..,"v":<value or
+// {"Field":"<id>",…}>},"<id>":{…,"v":1},…}})
+func c40BodyShowsBusy(r c40Req, body []byte) bool {
+	if r.Comp != c40SlowName || (r.Kind != "component" && r.Kind != "field") {
+		return false
+	}
+	var doc struct {
+		Dict map[string]struct {
+			V json.RawMessage `json:"v"`
+		} `json:"dict"`
+	}
+	if json.Unmarshal(body, &doc) != nil {
+		return false
+	}
+	root, ok := doc.Dict["0"]
+	if !ok {
+		return false
+	}
+	isOne := func(v json.RawMessage) bool { return strings.TrimSpace(string(v)) == "1" }
+	if r.Kind == "field" && (r.Field == "Busy" || r.Field == "State.Busy") {
+		return isOne(root.V)
+	}
+	var fields map[string]string
+	if json.Unmarshal(root.V, &fields) != nil {
+		return false
+	}
+	id, ok := fields["Busy"]
+	if !ok {
+		return false
+	}
+	return isOne(doc.Dict[id].V)
+}
+
+// c40Client issues the requests of one client against the announced port. stop
+// is closed when the child has gone away.
+func c40Client(port int, id int, reqs []c40Req, stop <-chan struct{}) []c40Served {
 	var served []c40Served
 	tr := &http.Transport{DisableKeepAlives: false, MaxIdleConnsPerHost: 1}
 	cl := &http.Client{Transport: tr, Timeout: 60 * time.Second}
@@ -584,10 +877,14 @@ func c40Client(port int, reqs []c40Req, stop <-chan struct{}) []c40Served {
 		if r.GapUS > 0 {
 			time.Sleep(time.Duration(r.GapUS) * time.Microsecond)
 		}
+		if r.SpinUS > 0 {
+			for t0 := time.Now(); time.Since(t0) < time.Duration(r.SpinUS)*time.Microsecond; {
+			}
+		}
 		for i := 0; i < r.Yields; i++ {
 			runtime.Gosched()
 		}
-		sv := c40Served{Kind: r.Kind, Paused: paused}
+		sv := c40Served{Kind: r.Kind, Paused: paused, Client: id, Comp: r.Comp}
 		method := http.MethodGet
 		if r.Kind == "pause" || r.Kind == "continue" || r.Kind == "tick" {
 			method = http.MethodPost
@@ -609,7 +906,10 @@ func c40Client(port int, reqs []c40Req, stop <-chan struct{}) []c40Served {
 		rsp.Body.Close()
 		sv.RecvNS = time.Now().UnixNano()
 		sv.Status = rsp.StatusCode
-		if len(body) > 120 {
+		if rsp.StatusCode == http.StatusOK {
+			sv.SawBusy = c40BodyShowsBusy(r, body)
+		}
+		if len(body) > 120 && !sv.SawBusy {
 			body = body[:120]
 		}
 		sv.Body = string(body)
@@ -661,7 +961,7 @@ func c40RunCase(rq c40ChildReq, dir string) c40Result {
 
 	if rq.Mon || rq.Probe {
 		mode := "mon"
-		if rq.Probe {
+		if rq.Probe || c.Probe {
 			mode = "probe"
 		}
 		mon, err := c40Build(c, mode, dir)
@@ -709,10 +1009,19 @@ func c40RunCase(rq c40ChildReq, dir string) c40Result {
 		if mon.ownMonitor != nil {
 			mon.ownMonitor.StopServer()
 		}
-		if mon.probe != nil {
-			mon.probe.mu.Lock()
-			res.Sections = append(res.Sections, mon.probe.sections...)
-			mon.probe.mu.Unlock()
+		if p := mon.probe; p != nil {
+			p.mu.Lock()
+			res.Sections = append(res.Sections, p.sections...)
+			res.NowCalls, res.NowDuringEvent = p.nowCalls, p.nowDuringEvent
+			res.PauseCalls, res.PauseMidEvent, res.PauseMidSlow, res.InspectMidSlow = p.pauseCalls, p.pauseMidEvent, p.pauseMidSlow, p.inspectMidSlow
+			res.PauseWaitMaxUS = p.pauseWaitMaxUS
+			p.mu.Unlock()
+		}
+		if sl := mon.slow; sl != nil {
+			res.SlowSpans = sl.w.spans
+			res.TickWhileBusy = int(sl.w.tickWhileBusy.Load())
+			res.SlowTicks = int(sl.w.ticks.Load())
+			res.TickBusyAtomic = int(sl.w.tickBusyAtom.Load())
 		}
 		mon.sim.Terminate()
 	}
